@@ -7,7 +7,7 @@ Small == { 0, 1, 2, 9, 10, 9999, 10000, 10001, 12345, 46340, 99999999 \div 3, 21
 Big == { FromInt(7), FromInt(9999), <<999, 999, 999>>, <<1, 0, 0, 0, 1>>, <<234, 678, 12, 456, 890, 12>>,
          <<0, 0, 0, 0, 0, 0, 0, 1>>, <<321, 0, 999, 1, 999, 999, 999, 999, 999, 77>> }
 Init == x = 0
-Next == x < 400 /\ x' = x + 1
+Next == x < 30 /\ x' = x + 1
 Spec == Init /\ [][Next]_x
 A == (x * 7919 + 13) % 46000
 Bb == (x * 104729 + 7) % 46000
